@@ -14,6 +14,7 @@ Protocol (state: the current annotated sequence `cur`, optionally a copy `cp`):
   revcomp k                              cur = cur.reverse_complement(k) -> ok <start> <letters> <annot>
   copy                                   cp = cur.copy()               -> ok True|False   (cp == cur)
   cp_setint p c | cp_addfeat <feature> | cp_setf <feature> <letters>   mutate the copy
+  keepf <feature> | kept                 r = cur[feature] is kept by the caller; `kept` prints r again (after later writes)
   mut_qual v | cp_mut_qual v             edit the dict handed out by feature.qual of every feature of cur / cp (no effect)
   mut_features | cp_mut_features         clear annotation.get_features() and try to clear feature.locs (no effect)
 """
@@ -291,9 +292,15 @@ def _mk_loc(l):
     return Location(l[0], l[1], Location.Strand.FORWARD if l[2] == "+" else Location.Strand.REVERSE, Location.Defect(l[3]))
 
 
-def _mk_feat(f):
+def _quals(q, order=0):
+    """Two qualifiers; `order` is the insertion order of the dictionary (equal dictionaries either way)."""
+    items = [("q", str(q)), ("r", "x")]
+    return dict(items if not order else items[::-1])
+
+
+def _mk_feat(f, order=0):
     from biotite.sequence import Feature
-    return Feature("k%d" % f[0], [_mk_loc(l) for l in f[2]], {"q": str(f[1])})
+    return Feature("k%d" % f[0], [_mk_loc(l) for l in f[2]], _quals(f[1], order))
 
 
 def _mk_aseq(start, letters, annot):
@@ -385,6 +392,7 @@ class World:
     def __init__(self, spell=0):
         self.cur = None
         self.cp = None
+        self.kept = None
         self.spell = spell
 
     def I(self, x, index=False):
@@ -399,11 +407,14 @@ class World:
             return Location(first=self.I(l[0]), last=self.I(l[1]), defect=Location.Defect(l[3]), strand=st)
         return Location(self.I(l[0]), self.I(l[1]), st, Location.Defect(l[3]))
 
-    def feat(self, f):
+    def feat(self, f, flip=False):
+        """`flip`: build an EQUAL feature whose qualifiers are inserted in the other order (look-ups, deletions)."""
         from biotite.sequence import Feature
         locs = [self.loc(l) for l in f[2]]
+        if flip:
+            locs = locs[::-1]
         cont = (list, tuple, set, frozenset)[self.spell % 4](locs)
-        qual = {"q": str(f[1])}
+        qual = _quals(f[1], (self.spell % 2) ^ (1 if flip else 0))
         ft = Feature("k%d" % f[0], cont, qual)
         qual["q"] = "77"                    # the arguments stay the caller's: editing them afterwards changes nothing
         if isinstance(cont, (list, set)):
@@ -426,8 +437,22 @@ class World:
         else:
             seq = NucleotideSequence(letters)
         if start == 1 and self.spell % 2:
-            return AnnotatedSequence(ann, seq)                                 # default sequence_start
-        return AnnotatedSequence(ann, seq, self.I(start))
+            x = AnnotatedSequence(ann, seq)                                    # default sequence_start
+        else:
+            x = AnnotatedSequence(ann, seq, self.I(start))
+        # provenance: the same object after a trip through pickle (multiprocessing) or copy.deepcopy carries equal but
+        # not identical alphabets, enum members, sets …
+        k = self.spell % 11
+        if k == 3:
+            import pickle
+            x = pickle.loads(pickle.dumps(x))
+        elif k == 7:
+            import copy
+            x = copy.deepcopy(x)
+        elif k == 9:
+            import pickle
+            x = AnnotatedSequence(pickle.loads(pickle.dumps(x.annotation)), pickle.loads(pickle.dumps(x.sequence)), x.sequence_start)
+        return x
 
     def step(self, op):
         w = op.split()
@@ -453,6 +478,14 @@ class World:
                 if _has_ties(f[2]):
                     return "unmodelled"
                 return "ok " + _canon_seq(self.cur[self.feat(f)])
+            if w[0] == "keepf":
+                f = _parse_feat(w[1])
+                if _has_ties(f[2]):
+                    return "unmodelled"
+                self.kept = self.cur[self.feat(f)]          # the caller keeps the result …
+                return "ok " + _canon_seq(self.kept)
+            if w[0] == "kept":
+                return "ok " + _canon_seq(self.kept)        # … and looks at it again after later writes
             if w[0] in ("setf", "cp_setf"):
                 f = _parse_feat(w[1])
                 if _has_ties(f[2]):
@@ -526,14 +559,14 @@ class World:
                 other.add_feature(self.feat((96, 96, [(1, 1, "+", 0)])))      # the operand stays independent
                 return "ok"
             if w[0] == "delfeat":
-                f = self.feat(_parse_feat(w[1]))
+                f = self.feat(_parse_feat(w[1]), flip=True)
                 if self.spell % 2:
                     del self.cur.annotation[f]
                 else:
                     self.cur.annotation.del_feature(f)
                 return "ok"
             if w[0] == "has":
-                return "ok " + ("true" if self.feat(_parse_feat(w[1])) in self.cur.annotation else "false")
+                return "ok " + ("true" if self.feat(_parse_feat(w[1]), flip=True) in self.cur.annotation else "false")
             if w[0] == "count":
                 n = len(self.cur.annotation)
                 if n != len(list(self.cur.annotation)) or n != len(self.cur.annotation.get_features()):
@@ -712,6 +745,45 @@ def _copy_independence(start, letters, annot):
     return v
 
 
+def _result_independent(w, feat_s, exp, strand, nloc):
+    """The sequence handed out by aseq[feature] is the caller's: writing to the annotated sequence afterwards does not
+    change it, and editing it does not change the annotated sequence."""
+    import numpy as np
+    v = []
+    f = w.feat(_parse_feat(feat_s))
+    x = w.cur
+    before = str(x.sequence)
+    r = x[f]
+    key = f"C13/getf/result-shares-memory/{strand}/{'single' if nloc == 1 else 'multi'}-location"
+    if len(r) and np.shares_memory(r.code, x.sequence.code):
+        return [(key, f"aseq[{feat_s}] returns a view of the sequence of the annotated sequence ({before})")]
+    if len(r):
+        saved = x.sequence.code.copy()
+        x.sequence.code[:] = (saved + 1) % 4            # every base changes
+        if str(r) != exp:
+            v.append((key, f"r = aseq[{feat_s}] read {exp}; after writing to aseq r reads {r}"))
+        x.sequence.code[:] = saved
+        r.code[:] = (r.code + 1) % 4
+        if str(x.sequence) != before:
+            v.append((key, f"editing r = aseq[{feat_s}] changed aseq: {before} -> {x.sequence}"))
+            x.sequence.code[:] = saved
+    return v
+
+
+def _annot_obj(fs):
+    """An Annotation built independently (fixed qualifier order, sorted locations) from expected plain data."""
+    from biotite.sequence import Annotation
+    return Annotation([_mk_feat((k, q, sorted(ls))) for k, q, ls in sorted(fs, key=str)])
+
+
+def _eq_builtin(got_obj, exp_fs, what):
+    """Equal content must also be `==` (and found in sets) — the comparison users write."""
+    exp = _annot_obj(exp_fs)
+    if _annot_t(got_obj) == exp_fs and not (got_obj == exp and all(f in got_obj for f in exp) and all(f in exp for f in got_obj)):
+        return [("C13/eq/result-unequal-to-equal-annotation", f"{what}: content {_canon_annot(got_obj)} but != an independently built equal annotation")]
+    return []
+
+
 def _construction_checks(x, start, letters, annot):
     """What was built is what was asked for (whatever the spelling of the arguments), `==` is an equivalence that
     separates objects differing in one place, and the location ranges are min first / max last."""
@@ -770,10 +842,17 @@ def _rebuild(x):
     return AnnotatedSequence(Annotation(feats), NucleotideSequence(str(x.sequence), ambiguous=amb), int(x.sequence_start))
 
 
-_READS = ("show", "aslice", "slice", "int", "getf", "has", "count", "range")
+_READS = ("show", "aslice", "slice", "int", "getf", "has", "count", "range", "kept")
 
 
 def _generic_checks(case):
+    try:
+        yield from _generic_checks_inner(case)
+    except Exception as e:  # noqa: BLE001
+        yield (f"C13/state/object-unusable/{type(e).__name__}", f"observing the object after {case['ops'][:4]}… raised {type(e).__name__}: {e}")
+
+
+def _generic_checks_inner(case):
     """Two statements that hold for every operation of the API, whatever it computes:
     (1) a read on the long-lived object (after any history of reads, in-place edits, refused calls) gives what the same
         read gives on a fresh object built from the same content, and changes nothing;
@@ -826,6 +905,7 @@ def oracle(case):
     w = World(case.get("spell", 0))
     # the oracle keeps its own plain-data picture of `cur` (start, letters, annotation), updated from the property
     start = letters = annot = None
+    kept_exp = None
     for op in case["ops"]:
         t = op.split()
         if t[0] == "new":
@@ -850,6 +930,8 @@ def oracle(case):
             if got != exp:
                 v.append(("C13/aslice/" + ("coverage" if _coverage(got) != _coverage(exp) else "defect-flags"),
                           f"annotation[{_o(a)}:{_o(b)}] of {_annot_s(annot)}: " + _explain(got, exp)))
+            else:
+                v += _eq_builtin(w.cur.annotation[a:b], exp, f"annotation[{_o(a)}:{_o(b)}]")
         elif t[0] == "slice":
             a, b = (None if x == "-" else int(x) for x in t[1:3])
             lo = start if a is None else a
@@ -872,6 +954,8 @@ def oracle(case):
             # an open bound removes nothing on that side; locations reaching beyond the end of the sequence may
             # either be kept or be cut at the end of the sequence by an open stop (both satisfy the statement)
             exps = [_clip_expected(annot, a, hi)] + ([_clip_expected(annot, a, None)] if b is None else [])
+            if got_annot in exps:
+                v += _eq_builtin(r.annotation, got_annot, f"aseq[{_o(a)}:{_o(b)}]")
             if got_annot not in exps:
                 key = f"C13/slice[{form}]/" + ("coverage" if _coverage(got_annot) != _coverage(exps[0]) else "defect-flags")
                 v.append((key, f"aseq[{_o(a)}:{_o(b)}] (start {start}, {n} bases) of {_annot_s(annot)}: " + _explain(got_annot, exps[0])))
@@ -881,14 +965,22 @@ def oracle(case):
                 got = w.step(op)
                 if got != "ok " + letters[p - start]:
                     v.append(("C13/int/value", f"aseq[{p}] start {start} seq {letters}: {got}"))
-        elif t[0] in ("getf", "setf"):
+        elif t[0] == "kept":
+            got = w.step(op)
+            if kept_exp is not None and got != "ok " + (kept_exp or "_"):
+                v.append(("C13/getf/result-follows-later-writes", f"r = aseq[f] read {kept_exp!r}; after later writes to aseq the kept r reads {got}"))
+        elif t[0] in ("getf", "setf", "keepf"):
+            keep = t[0] == "keepf"
+            if keep:
+                t = ["getf"] + t[1:]
+                kept_exp = None
             k, q, locs = _parse_feat(t[1])
             locs = list(dict.fromkeys(locs))
             strands = {l[2] for l in locs}
             in_range = all(start <= f and l < end for f, l, _, _ in locs)
             disjoint = all(a[1] < b[0] or b[1] < a[0] for i, a in enumerate(locs) for b in locs[i + 1:])
             if len(strands) != 1 or not in_range or _has_ties(locs):
-                if t[0] == "setf":      # keep the picture in sync with whatever happened
+                if t[0] == "setf" or keep:      # keep the picture in sync with whatever happened
                     w.step(op)
                     letters = str(w.cur.sequence)
                 continue
@@ -898,9 +990,13 @@ def oracle(case):
                 exp = "".join(letters[f - start:l - start + 1] if fwd else _revcomp_str(letters[f - start:l - start + 1])
                               for f, l, _, _ in order)
                 got = w.step(op)
+                if keep:
+                    kept_exp = exp
                 if got != "ok " + (exp or "_"):
                     v.append(("C13/getf/" + ("forward" if fwd else "reverse") + ("/multi-location" if len(locs) > 1 else ""),
                               f"aseq[{t[1]}] start {start} seq {letters}: {got}, expected {exp}"))
+                else:
+                    v += _result_independent(w, t[1], exp, "forward" if fwd else "reverse", len(locs))
             else:
                 x = "" if t[2] == "_" else t[2]
                 total = sum(l - f + 1 for f, l, _, _ in locs)
@@ -993,6 +1089,8 @@ def oracle(case):
             r = w.cur
             if str(r.sequence) != _revcomp_str(letters) or int(r.sequence_start) != k or _annot_t(r.annotation) != exp_annot:
                 v.append(("C13/revcomp/value", f"reverse_complement({k}) of {before}: {got}"))
+            else:
+                v += _eq_builtin(r.annotation, exp_annot, f"reverse_complement({k})")
             try:
                 back = r.reverse_complement(start)
                 if _canon_aseq(back) != before or not (back == orig):
@@ -1317,10 +1415,10 @@ def cases(rng, tier):
     for kind, cnt in plan:
         for _ in range(cnt * mult):
             c = gens[kind](rng)
-            c["spell"] = rng.randrange(420)        # how the same arguments are spelled on the implementation side
+            c["spell"] = rng.randrange(4620)       # how the same arguments are spelled on the implementation side
             yield c
     for i, c in enumerate(_exhaustive(4 if quick else 6)):
-        c["spell"] = i % 420
+        c["spell"] = (i * 7) % 4620
         yield c
 
 
